@@ -7,6 +7,7 @@ import (
 	ap "github.com/go-ap/activitypub"
 
 	"verif/internal/engine"
+	"verif/internal/universe"
 )
 
 // C13 — collections are insertion-ordered sets under Append/Contains/Remove (DESIGN.md §3 C13).
@@ -26,8 +27,16 @@ type c13Pool struct {
 // a query value: "distinct" must not depend on how cleverly the authority or the query is split.
 var c13Tricky = []ap.IRI{"https://[2001:db8::1]/a", "https://[2001:db8::2]/a", "https://[2001:db8::1]:8443/a", "https://[2001:db8::1]:9443/a", "https://example.com/s?dir=/in/"}
 
+var c13CrossRefs bool // set while the cross-referencing pool is built
+
+var c13IDSet []ap.IRI // when set, the ids of the pool being built
+
 func c13MakePool(n int, tricky bool) c13Pool {
+	set := c13IDSet
 	id := func(i int) ap.IRI {
+		if set != nil {
+			return set[i]
+		}
 		if tricky {
 			return c13Tricky[i]
 		}
@@ -46,6 +55,21 @@ func c13MakePool(n int, tricky bool) c13Pool {
 			return &ap.Activity{ID: id(3), Type: ap.LikeType, Object: ap.IRI("https://example.com/liked")}
 		}},
 		{"objval4", func() ap.Item { return ap.Object{ID: id(4), Type: ap.ArticleType} }},
+	}
+	if c13CrossRefs {
+		// pairwise distinct ids, but the items mention EACH OTHER's ids in other properties (url, inbox, object, attributedTo):
+		// identity is the id, nothing else
+		all[0].mk = func() ap.Item { return id(0) }
+		all[1].mk = func() ap.Item {
+			return &ap.Object{ID: id(1), Type: ap.NoteType, URL: id(0), AttributedTo: id(2), InReplyTo: ap.ItemCollection{id(3), id(4)}}
+		}
+		all[2].mk = func() ap.Item {
+			return &ap.Actor{ID: id(2), Type: ap.PersonType, URL: ap.ItemCollection{id(0), &ap.Link{Type: ap.LinkType, Href: id(1)}}, Inbox: id(3), Outbox: id(4)}
+		}
+		all[3].mk = func() ap.Item {
+			return &ap.Activity{ID: id(3), Type: ap.LikeType, Object: id(1), Actor: id(2), URL: id(4)}
+		}
+		all[4].mk = func() ap.Item { return ap.Object{ID: id(4), Type: ap.ArticleType, URL: id(3), Context: id(0)} }
 	}
 	p := c13Pool{}
 	for i := 0; i < n; i++ {
@@ -334,19 +358,67 @@ func c13Run(c *engine.Ctx) {
 		pool, depth int
 		tricky      bool
 	}
-	cfgs := []cfg{{5, 3, false}, {4, 4, false}, {5, 3, true}}
+	cfgs := []cfg{{5, 3, false}, {4, 4, false}, {5, 3, true}, {-5, 3, false}}
 	if !c.Quick() {
-		cfgs = []cfg{{4, 5, false}, {5, 4, false}, {5, 4, true}}
+		cfgs = []cfg{{4, 5, false}, {5, 4, false}, {5, 4, true}, {-5, 4, false}}
+	}
+	// pools of ids that collide pairwise under a common 32-bit hash: every history of depth <= 2 (quick) / 3 (thorough)
+	cols := universe.CollidingIDs()
+	for k := 0; k+1 < len(cols); k += 2 {
+		c13IDSet = []ap.IRI{cols[k][0], cols[k][1], cols[k+1][0], cols[k+1][1], "https://example.com/p4"}
+		pool := c13MakePool(5, false)
+		c13IDSet = nil
+		depth := 2
+		if !c.Quick() {
+			depth = 3
+		}
+		for _, kind := range c13Kinds {
+			ops := c13Ops(5, kind.hasRemove)
+			kind, pool, k := kind, pool, k
+			c.Do("C13|"+kind.name, func() string {
+				return fmt.Sprintf("%s, pool of 5 whose ids collide pairwise under a 32-bit hash (pairs #%d, #%d): every history up to depth %d", kind.name, k, k+1, depth)
+			}, func(t *engine.T) {
+				var n int64
+				var rec func(seq []c13Op)
+				rec = func(seq []c13Op) {
+					if len(seq) > 0 {
+						cont := kind.mk(nil)
+						var m []int
+						hist := kind.name + " empty"
+						for _, op := range seq {
+							hist += "; " + op.str(pool)
+							m = c13Step(t, kind, pool, hist, cont, m, op)
+						}
+						n++
+					}
+					if len(seq) >= depth {
+						return
+					}
+					for _, o := range ops {
+						rec(append(append([]c13Op{}, seq...), o))
+					}
+				}
+				rec(nil)
+				t.AddEvals(n-1, n-1)
+			})
+		}
 	}
 	for _, cf := range cfgs {
+		if cf.pool < 0 {
+			// a negative pool size selects the cross-referencing pool
+			cf.pool = -cf.pool
+			c13CrossRefs = true
+		}
 		pool := c13MakePool(cf.pool, cf.tricky)
+		crossRefs := c13CrossRefs
+		c13CrossRefs = false
 		for _, kind := range c13Kinds {
 			ops := c13Ops(cf.pool, kind.hasRemove)
 			for _, start := range []string{"empty", "pre"} {
 				for _, o1 := range ops {
 					kind, start, o1, cf := kind, start, o1, cf
 					c.Do("C13|"+kind.name, func() string {
-						return fmt.Sprintf("%s from %s start, pool of %d (ids differing only inside the authority: %v): %s; then every continuation up to depth %d", kind.name, start, cf.pool, cf.tricky, o1.str(pool), cf.depth)
+						return fmt.Sprintf("%s from %s start, pool of %d (ids differing only inside the authority: %v; items mentioning each other's ids in url/inbox/object...: %v): %s; then every continuation up to depth %d", kind.name, start, cf.pool, cf.tricky, crossRefs, o1.str(pool), cf.depth)
 					}, func(t *engine.T) {
 						var n int64
 						run := func(seq []c13Op) {
